@@ -97,7 +97,8 @@ def plan(rng, idx, tier):
     graphs = []
     for j in range(ng):
         gr = rng.sub('g', j)
-        ccfg = gcontent.ContentCfg(max_nodes=gr.pick([1, 2, 3, 4, 5]), reifiable=gr.pick([0.0, 0.3, 0.6]),
+        ccfg = gcontent.ContentCfg(max_nodes=gr.weighted([(1, 3), (2, 3), (3, 3), (4, 3), (5, 3), (9, 1), (13, 1)]),
+                                   max_attrs=gr.weighted([(2, 6), (5, 1)]), reifiable=gr.pick([0.0, 0.3, 0.6]),
                                    reified_nodes=gr.pick([0.0, 0.3, 0.8]), p_inverted_attr=0.03,
                                    p_none_target=0.02, avoid_ambiguous=True)
         c = gcontent.gen_content(gr, spec, ccfg)
